@@ -147,8 +147,133 @@ def race_leg(ctx):
     ctx.extra["race_reports_by_key"] = {k: d["n"] for k, d in per_key.items()}
 
 
+# ---------------------------------------------------------------- table leg
+
+PKGS = ["/broker", "/common/turbotunnel", "/server/lib", "/client/lib", "/proxy/lib"]
+GEN = os.path.join(vlib.COQ, "Gen", "AccessTable.v")
+
+
+def extract_table():
+    """Run the extractor on the repo's current source. -> (coq text, json doc)"""
+    exe = vlib.go_build("./zz_verif/locktable")
+    lst = os.path.join(vlib.GOB, "golist.json")
+    rc, out, err = vlib.sh(["go", "list", "-export", "-deps", "-json=ImportPath,Dir,Export,GoFiles,CgoFiles", "-tags", "verif",
+                            "-modfile=" + os.path.join(vlib.GOB, "go.mod")] + ["." + p for p in PKGS],
+                           cwd=vlib.REPO, env=vlib.GOENV, timeout=900)
+    if rc != 0:
+        raise vlib.GoBuildError("go list -export failed (the anchored packages no longer compile?):\n" + err[-2000:])
+    open(lst, "w").write(out)
+    vout = os.path.join(vlib.GOB, "AccessTable.v")
+    jout = os.path.join(vlib.GOB, "access_table.json")
+    rc, out, err = vlib.sh([exe, "-list", lst, "-root", vlib.REPO, "-coq", vout, "-json", jout] + PKGS, timeout=300)
+    if rc != 0:
+        raise vlib.GoBuildError("locktable extractor failed: " + err[-2000:])
+    return open(vout).read(), json.load(open(jout))
+
+
+def field_ok(rows):
+    """python mirror of LockTrace.field_ok (reporting only; the verdict is Coq's)"""
+    live = [r for r in rows if r["kind"] != "init"]
+    if all(r["kind"] == "atomic" for r in live) or all(r["kind"] == "read" for r in live):
+        return True
+    common = set(live[0]["held"])
+    for r in live[1:]:
+        common &= set(r["held"])
+    return bool(common)
+
+
+def culprits(rows):
+    """the rows of a failing field that break its prevailing discipline"""
+    live = [r for r in rows if r["kind"] != "init"]
+    cnt = {}
+    for r in live:
+        for g in r["held"]:
+            if not g.endswith("#R"):
+                cnt[g] = cnt.get(g, 0) + 1
+    if cnt:
+        g = max(sorted(cnt), key=lambda k: cnt[k])
+        bad = [r for r in live if g not in r["held"] and (g + "#R" not in r["held"] or r["kind"] != "read")]
+        return g, bad or live
+    if any(r["kind"] == "atomic" for r in live):
+        return "(atomic)", [r for r in live if r["kind"] != "atomic"]
+    return "(none)", live
+
+
+def coq_failing_fields():
+    """failing_fields access_table evaluated by coqc (vm_compute)"""
+    os.makedirs(vlib.TMP, exist_ok=True)
+    tag = "ff_%d_%d" % (os.getpid(), int(time.time() * 1000) % 100000)
+    vf = os.path.join(vlib.TMP, tag + ".v")
+    open(vf, "w").write("Require Import String List Snow.Model.LockTrace Snow.Gen.AccessTable.\nOpen Scope string_scope.\n"
+                        "Definition ff := Eval vm_compute in failing_fields access_table.\nPrint ff.\n")
+    rc, out, err = vlib.sh(["coqc", "-Q", vlib.COQ, "Snow", vf], cwd=vlib.TMP, timeout=600)
+    for ext in (".v", ".vo", ".glob", ".vok", ".vos"):
+        try:
+            os.remove(vf[:-2] + ext)
+        except OSError:
+            pass
+    try:
+        os.remove(os.path.join(vlib.TMP, "." + tag + ".aux"))
+    except OSError:
+        pass
+    if rc != 0:
+        return None, (out + err)[-800:]
+    body = out.split("ff =", 1)[-1].rsplit(":", 1)[0]
+    return re.findall(r'"([^"]*)"', body), ""
+
+
+def table_leg(ctx):
+    text, doc = extract_table()
+    old = open(GEN).read() if os.path.exists(GEN) else None
+    if old != text:
+        open(GEN, "w").write(text)
+        vlib.log("Gen/AccessTable.v regenerated from %s (%d rows): re-checking the proofs" % (vlib.REPO, len(doc["rows"])))
+        ctx.proof = vlib.proof_status(ctx.cid)
+    rows = doc["rows"]
+    by_field = {}
+    for r in rows:
+        by_field.setdefault(r["field"], []).append(r)
+        ctx.count("row %s %s %s [%s]" % (r["site"], r["field"], r["kind"], ",".join(r["held"])), kind="table-" + r["kind"])
+    ctx.extra["table_rows"] = len(rows)
+    ctx.extra["table_fields"] = len(by_field)
+    ctx.extra["coverage_lost"] = doc.get("coverage_lost", [])
+    if doc.get("coverage_lost"):
+        vlib.log("tracked fields that no longer exist (coverage lost, -race runs still apply): %s" % doc["coverage_lost"])
+    failing_py = sorted(f for f, rs in by_field.items() if not field_ok(rs))
+    failing_coq, why = coq_failing_fields()
+    if failing_coq is None:
+        ctx.not_shown("Gen/AccessTable.v does not evaluate in Coq: " + why)
+        failing_coq = failing_py
+    elif sorted(failing_coq) != failing_py:
+        ctx.not_shown("discipline verdicts differ: Coq failing_fields=%s, check module=%s" % (sorted(failing_coq), failing_py))
+    ctx.extra["failing_fields"] = sorted(failing_coq)
+    groups = {}
+    for f in sorted(set(failing_coq) | set(failing_py)):
+        guard, bad = culprits(by_field.get(f, []))
+        key = key_from_text(" ".join(r["fn"] + " " + r["field"] for r in bad), "race-" + re.sub(r"[^A-Za-z0-9_.]", "", f))
+        g = groups.setdefault(key, dict(fields=[], rows=[]))
+        g["fields"].append(dict(field=f, prevailing_guard=guard))
+        g["rows"] += [dict(site=r["site"], fn=r["fn"], field=r["field"], kind=r["kind"], held=r["held"]) for r in bad]
+    for key, g in sorted(groups.items()):
+        sites = sorted(set("%s (%s, %s, holds %s)" % (r["site"], r["fn"], r["kind"], r["held"] or "nothing") for r in g["rows"]))
+        ctx.violation(key, "lock discipline broken for %s: %s" % (", ".join(x["field"] for x in g["fields"]), "; ".join(sites[:6])),
+                      dict(kind="table-rows", fields=g["fields"], rows=g["rows"][:40],
+                           note="each row is an access site of the field that does not hold the guard held at the field's other sites; "
+                                "the -race workloads of this check exercise these sites"))
+
+
 def run(ctx):
     ctx.level = "proof"
+    ctx.trusted += ["harness/overlay/zz_verif/locktable (access-table extractor: may drop held locks, must not add any)",
+                    "Go race detector (happens-before, -race builds of the workloads)"]
+    ctx.assumptions += [
+        "executions respect the extracted table: each access of a tracked field is an instance of one of its rows and the mutex "
+        "instance held is the one guarding that object (instance association is not checked)",
+        "init rows: constructor code before the first go statement is modelled as preceding the first Fork of the trace",
+        "sync.RWMutex read sections are modelled as exclusive sections (currentNATType): overlapping readers are outside the theorem",
+        "fields disciplined by goroutine confinement or channel hand-off are not in the table: only the -race runs observe them",
+    ]
+    table_leg(ctx)
     race_leg(ctx)
 
 
